@@ -72,6 +72,7 @@ package x509
 //@   maypanic
 //@   modifies all
 //@   uses perreturn
+//@   claims at inv
 // -- every fingerprint is computed from exactly the named bytes of the input structure
 //@   at call MD5Fingerprint assert same(arg0, old(in.Raw))
 //@   at call SHA1Fingerprint assert same(arg0, old(in.Raw))
